@@ -59,7 +59,7 @@ UpSteps ==
   ELSE
     (IF up.ph \in {"idle", "dead"}
        THEN (IF up.inc.on THEN {[op |-> "resume"]} ELSE {[op |-> "request"]})
-            \cup (IF AllowFresh /\ up.inc.on /\ RunsLen(up.inc.runs) > 0 THEN {[op |-> "request"]} ELSE {})
+            \cup (IF AllowFresh /\ up.inc.on THEN {[op |-> "request"]} ELSE {})
        ELSE {})
     \cup (IF up.ph = "done"
             THEN (IF out.op = "publish" THEN {[op |-> "download"]} ELSE
